@@ -145,6 +145,8 @@ class C13(PropCheck):
             'chunks (several / empty IDATs, ancillary chunks, truncated and over-long tails, length overruns) and on '
             'files written by Pillow: the returned bytes; non-trivial = transparency info or a mode other than RGB / L, '
             'resp. several IDATs or a malformed file')
+        for line, out, meta, nontrivial, tags in c13_embed.fixed_cmyk_family():
+            sec.add(line, out, meta=meta, nontrivial=nontrivial, tags=tags)
         for k in range(run.n(2500, 40000)):
             line, out, meta, nontrivial, tags = c13_embed.case_embed(rng)
             sec.add(line, out, meta=meta, nontrivial=nontrivial, tags=tags)
@@ -195,6 +197,9 @@ class C13(PropCheck):
             'pattern, names in dictionary order, read back from the file (every `/name Do` of a content stream must be '
             'defined in the resources of that very stream); non-trivial = size resolution / object-fit other than '
             'fill / an image used more than once')
+        for doc in c13_docs.fixed_content_documents():
+            for line, out, meta, nontrivial, tags in c13_docs.case_document(rng, doc):
+                sec.add(line, out, meta=meta, nontrivial=nontrivial, tags=tags + ['doc:fixed-content-orientation'])
         for k in range(run.n(350, 7000)):
             for line, out, meta, nontrivial, tags in c13_docs.case_document(rng):
                 sec.add(line, out, meta=meta, nontrivial=nontrivial, tags=tags)
